@@ -19,11 +19,43 @@ use crate::{
     },
 };
 
-use rand::{CryptoRng, Rng, RngCore};
+use rand::{CryptoRng, Rng, RngCore, SeedableRng};
 use rand_chacha::ChaCha20Rng;
 
 // The statistical security parameter.
 const SSP: usize = 40;
+
+/// Two-party coin toss with the peer that yields the generator for the consistency check
+/// coefficients. It is run after the OT-extension matrix has been sent / received, so that the
+/// coefficients are not determined before the data they check. The commitment is bound to the
+/// role, so a party can not simply mirror its peer's commitment and opening.
+async fn toss_check_rng<C: Channel>(
+    channel: &C,
+    p_to: usize,
+    is_sender: bool,
+    shared_rand: &mut ChaCha20Rng,
+) -> Result<ChaCha20Rng, Error> {
+    let own: [u8; 32] = rand::random();
+    let commit = |value: &[u8], sender: bool| -> [u8; 32] {
+        let mut hasher = blake3::Hasher::new();
+        hasher.update(value);
+        hasher.update(&[sender as u8]);
+        hasher.finalize().into()
+    };
+    send_to(channel, p_to, "KOS_OT_toss_comm", &commit(&own, is_sender)).await?;
+    let peer_commitment = recv_vec_from::<u8>(channel, p_to, "KOS_OT_toss_comm", 32).await?;
+    send_to(channel, p_to, "KOS_OT_toss_open", &own).await?;
+    let peer = recv_vec_from::<u8>(channel, p_to, "KOS_OT_toss_open", 32).await?;
+    if commit(&peer, !is_sender)[..] != peer_commitment[..] {
+        return Err(Error::CommitmentCouldNotBeOpened);
+    }
+    let mut seed = [0u8; 32];
+    shared_rand.fill_bytes(&mut seed);
+    for (s, (a, b)) in seed.iter_mut().zip(own.iter().zip(&peer)) {
+        *s ^= a ^ b;
+    }
+    Ok(ChaCha20Rng::from_seed(seed))
+}
 
 /// Oblivious transfer extension sender.
 pub(crate) struct Sender<OT: OtReceiver<Msg = Block> + Malicious> {
@@ -46,6 +78,8 @@ impl<OT: OtReceiver<Msg = Block> + Malicious> Sender<OT> {
         let m = m.next_multiple_of(8);
         let ncols = m + 128 + SSP;
         let qs = self.ot.send_setup(channel, ncols, p_to).await?;
+        // The coefficients are tossed only now that the receiver's matrix has arrived.
+        let mut check_rand = toss_check_rng(channel, p_to, true, shared_rand).await?;
         // Check correlation
         let mut check = (Block::default(), Block::default());
         let mut chi = Block::default();
@@ -53,7 +87,7 @@ impl<OT: OtReceiver<Msg = Block> + Malicious> Sender<OT> {
             let q = &qs[j * 16..(j + 1) * 16];
             let q: [u8; 16] = q.try_into().unwrap();
             let q = Block::from(q);
-            shared_rand.fill_bytes(chi.as_mut());
+            check_rand.fill_bytes(chi.as_mut());
             #[cfg(feature = "__verif")]
             if j == 0 {
                 crate::verif::probe("kos_chi0_sender", chi.as_mut());
@@ -171,6 +205,8 @@ impl<OT: OtSender<Msg = Block> + Malicious> Receiver<OT> {
         let mut r = boolvec_to_u8vec(inputs);
         r.extend((0..(m_ - m) / 8).map(|_| rand::random::<u8>()));
         let ts = self.ot.recv_setup(channel, &r, m_, p_to).await?;
+        // The coefficients are tossed only now that the matrix has been sent.
+        let mut check_rand = toss_check_rng(channel, p_to, false, shared_rand).await?;
         // Check correlation
         let mut x = Block::default();
         let mut t = (Block::default(), Block::default());
@@ -180,7 +216,7 @@ impl<OT: OtSender<Msg = Block> + Malicious> Receiver<OT> {
             let tj = &ts[j * 16..(j + 1) * 16];
             let tj: [u8; 16] = tj.try_into().unwrap();
             let tj = Block::from(tj);
-            shared_rand.fill_bytes(chi.as_mut());
+            check_rand.fill_bytes(chi.as_mut());
             #[cfg(feature = "__verif")]
             if j == 0 {
                 crate::verif::probe("kos_chi0_receiver", chi.as_mut());
